@@ -152,6 +152,12 @@ def flatten (m : Module) (e : Nat) : Program :=
   ((m.getD e default).params.map .param) ++
     (reach m (reachFuel m) [e] []).flatMap fun f => ((m.getD f default).body).flatMap (expand m)
 
+/-- several entry points at once (a *session*: any sequence of public calls on the same objects is
+    a trace over the union of their statement sets, with all their parameters caller-owned) -/
+def flattenMany (m : Module) (es : List Nat) : Program :=
+  (es.flatMap fun e => (m.getD e default).params.map .param) ++
+    (reach m (reachFuel m) es []).flatMap fun f => ((m.getD f default).body).flatMap (expand m)
+
 /-- checker on an entry point of a module -/
 def noParamWriteEntry (m : Module) (e : Nat) : Bool := noParamWrite (flatten m e)
 
